@@ -13,7 +13,7 @@ import z3
 
 from . import kernel as K
 from . import strings as S
-from .kernel import BOOL, INT, NULLT, REAL, STR, Cell, Ctx, Rel, SortKey, Unsupported
+from .kernel import BOOL, DATE, DT, INT, NULLT, REAL, STR, Cell, Ctx, Rel, SortKey, Unsupported
 
 
 class ArtefactError(Exception):
@@ -41,6 +41,7 @@ _POLARS_TY = {
     "Float64": REAL,
     "Float32": REAL,
     "Null": NULLT,
+    "Date": DATE,
 }
 
 
@@ -464,6 +465,13 @@ class PolarsSem:
             if isinstance(val, str) or val != val or val in (float("inf"), float("-inf")):
                 raise Unsupported("non-finite float literal")
             return K.lit(float(val))
+        if ty == "Date":
+            return Cell(DATE, K.FALSE, z3.IntVal(int(val)))
+        if ty == "Datetime":
+            us, unit, tz = val
+            if unit != "Microseconds" or tz is not None:
+                raise Unsupported(f"datetime literal unit/zone {unit}/{tz}")
+            return Cell(DT, K.FALSE, z3.IntVal(int(us)))
         raise Unsupported(f"literal type {ty}")
 
     def binary(self, op, a, b):
@@ -489,9 +497,11 @@ class PolarsSem:
         raise Unsupported(f"binary op {op}")
 
     def cast(self, cells, dtype, options):
+        if isinstance(dtype, dict) and isinstance(dtype.get("Literal"), dict) and dtype["Literal"].get("Datetime") == ["Microseconds", None]:
+            dtype = {"Literal": "Datetime"}
         if not (isinstance(dtype, dict) and "Literal" in dtype and isinstance(dtype["Literal"], str)):
             raise Unsupported(f"cast dtype {dtype}")
-        tgt = _POLARS_TY.get(dtype["Literal"])
+        tgt = DT if dtype["Literal"] == "Datetime" else _POLARS_TY.get(dtype["Literal"])
         if tgt is None:
             raise Unsupported(f"cast target {dtype}")
         out = []
@@ -521,6 +531,14 @@ class PolarsSem:
                 return K.as_ty(c, REAL)
             if src == STR:
                 raise Unsupported("string -> float")
+        if tgt == DATE and src == DT:
+            return K.dt_to_date(c)
+        if tgt == DT and src == DATE:
+            return K.date_to_dt(c)
+        if tgt == STR and src == DATE:
+            return S.date_to_str(c)
+        if tgt == STR and src == DT:
+            return S.dt_to_str(c)
         if tgt == STR:
             if src == INT:
                 return S.int_to_str(c)
@@ -606,6 +624,12 @@ class PolarsSem:
             r = K.rank(sub, [SortKey(iv, False, False)], method)
             return [Cell(INT, iv[i].null, r[i].val) for i in range(n)]
         args = [self.col(x, rel, ctx) for x in v["input"]]
+        if fname == "TemporalExpr":
+            fld = {"Year": "year", "Month": "month", "Day": "day", "Hour": "hour", "Minute": "minute", "Second": "second",
+                   "WeekDay": "day_of_week", "OrdinalDay": "day_of_year"}.get(f["TemporalExpr"] if isinstance(f["TemporalExpr"], str) else None)  # fmt: skip
+            if fld is None:
+                raise Unsupported(f"temporal function {f['TemporalExpr']}")
+            return [K.temporal_field(c, fld) for c in args[0]]
         if fname == "Abs":
             return [K.c_abs(c) for c in args[0]]
         if fname == "Negate":
@@ -762,6 +786,14 @@ class PolarsSem:
             return [S.str_pred(x[i], args[1][i], lambda p, s: z3.Contains(s, p)) for i in range(n)]
         if name in ("Uppercase", "Lowercase"):
             return [S.change_case(c, name == "Uppercase", L) for c in x]
+        if name == "Strptime":
+            dtype, o = sf["Strptime"]
+            if o.get("format") is not None or not o.get("strict") or not o.get("exact"):
+                raise Unsupported("strptime options")
+            tgt = DATE if dtype == {"Literal": "Date"} else DT if dtype == {"Literal": {"Datetime": ["Microseconds", None]}} else None
+            if tgt is None:
+                raise Unsupported(f"strptime target {dtype}")
+            return [S.parse_temporal_const(c, tgt) for c in x]
         if name == "Replace":
             o = sf["Replace"]
             if o["n"] != -1:
